@@ -165,6 +165,73 @@ fn generic_writes(acc: &mut Acc) {
     }
 }
 
+/// Ranges shorter than the payload: nothing may be written outside the range, however often the
+/// caller keeps calling `write` (what `write_all` does).
+fn short_ranges(acc: &mut Acc) {
+    use embedded_io_async::Write;
+    use ethercrab::verif::EepromRange;
+    let img: Vec<u8> = (0..256).map(|i| (i * 3 + 1) as u8).collect();
+    for start in [0u16, 5, 60, 126, 127, 0x7ffd, 0x7ffe, 0x7fff] {
+        for range_words in 0..=4u16 {
+            for payload_len in 0..=12usize {
+                let payload: Vec<u8> = (0..payload_len).map(|i| 0xc0 | (i as u8)).collect();
+                let p = MemEeprom::new(img.clone(), 8, 10_000);
+                let mut range = EepromRange::new(p.clone(), start, range_words);
+                acc.n += 1;
+                acc.nt += 1;
+                let r = catch_unwind(AssertUnwindSafe(|| {
+                    let mut rest: &[u8] = &payload;
+                    let mut calls = 0;
+                    let mut total = 0usize;
+                    // keep writing like write_all does, plus one more call on the exhausted range
+                    loop {
+                        calls += 1;
+                        match block_on_ready(range.write(rest)) {
+                            Ok(Ok(0)) => break,
+                            Ok(Ok(n)) => {
+                                total += n;
+                                if n > rest.len() {
+                                    return Err(format!("write reported {} bytes of a {} byte buffer", n, rest.len()));
+                                }
+                                rest = &rest[n..];
+                            }
+                            Ok(Err(_)) => break,
+                            Err(m) => return Err(m),
+                        }
+                        if calls > 20 {
+                            break;
+                        }
+                    }
+                    let _ = block_on_ready(range.write(&[0xee, 0xee]));
+                    Ok(total)
+                }));
+                match r {
+                    Ok(Ok(total)) => {
+                        let words: Vec<u16> = p.writes.borrow().iter().map(|w| w.0).collect();
+                        let lo = u32::from(start);
+                        let hi = (lo + u32::from(range_words)).min(0x8000);
+                        if let Some(w) = words.iter().find(|w| u32::from(**w) < lo || u32::from(**w) >= hi) {
+                            acc.v(
+                                "write-outside-permitted-range",
+                                format!("range of {} words at word {:#06x}, payload {} bytes: word {:#06x} was written (all writes: {:x?})", range_words, start, payload_len, w, words),
+                            );
+                        }
+                        let mut seen = std::collections::BTreeSet::new();
+                        if let Some(w) = words.iter().find(|w| !seen.insert(**w)) {
+                            acc.v("word-written-twice", format!("range of {} words at {:#06x}, payload {} bytes: word {:#06x} written more than once ({:x?})", range_words, start, payload_len, w, words));
+                        }
+                        if total > (range_words as usize * 2).max(payload_len) {
+                            acc.v("write-count-too-large", format!("reported {} bytes written into a range of {} words", total, range_words));
+                        }
+                    }
+                    Ok(Err(m)) => acc.v("write-count-beyond-buffer", m),
+                    Err(pn) => acc.v("panic short-range write", format!("range {} words at {:#06x}, payload {}: {}", range_words, start, payload_len, crate::e1::panic_msg(&pn))),
+                }
+            }
+        }
+    }
+}
+
 /// Device path: set_alias_address and eeprom_write_dangerously against a simulated device that
 /// answers `cmd_errors` command errors per word, stays busy for `busy` polls, or forever.
 fn device_path(acc: &mut Acc, thorough: bool) {
@@ -308,6 +375,7 @@ pub fn c14(tier: &Tier) -> Result<i32, String> {
     }
     *acc.outcomes.entry("alias writes (in memory)".into()).or_insert(0) += acc.n;
     generic_writes(&mut acc);
+    short_ranges(&mut acc);
     device_path(&mut acc, tier.thorough);
     rep.evaluations = acc.n;
     rep.nontrivial = acc.nt;
